@@ -39,7 +39,7 @@ CLIENT_PORT = 61000
 STATUS_CODE = {'offline': 0, 'away': 1, 'online': 2}
 STATUS_NAME = {-1: 'unknown', 0: 'offline', 1: 'away', 2: 'online'}
 
-KNOWN_MARK = 'set-upload-slots:raised-limit-not-applied'
+UNFINISHED = ('QUEUED', 'INITIALIZING', 'UPLOADING', 'PAUSED')
 
 
 def owner(u: int) -> int:
@@ -80,7 +80,9 @@ def ops_of(labels):
             out.append(('priv', int(args[0])))
         elif name == 'TimerStep':
             out.append(('tick',))
-        elif name in ('Cycle', 'FirstStep'):
+        elif name == 'TailEnd':
+            out.append(('tailend', int(args[0])))
+        elif name in ('Cycle', 'FirstStep', 'ETracked'):
             if not out or out[-1] != ('run',):
                 out.append(('run',))
     while out and out[-1] == ('run',):
@@ -89,13 +91,13 @@ def ops_of(labels):
 
 
 def init_of(state):
-    """Initial limit and user attributes from the first state of a behaviour."""
+    """Initial limit and user attributes (status = the server's view) from the first state of a behaviour."""
     def seq(v):
         # TLC prints a function with domain 1..n as a tuple
         if isinstance(v, tuple):
             return {i + 1: x for i, x in enumerate(v)}
         return {int(k): x for k, x in v.items()}
-    status, friend, priv = seq(state['status']), seq(state['friend']), seq(state['priv'])
+    status, friend, priv = seq(state['truth']), seq(state['friend']), seq(state['priv'])
     users = tuple((o, str(status[o]), bool(friend[o]), bool(priv[o])) for o in sorted(status))
     return (int(state['slots']), users)
 
@@ -109,10 +111,13 @@ NAME_POOL = ['alice', 'bob', 'carol', 'dave', 'erin', 'Frank_7', 'grace hopper',
 
 
 class Recorder:
+    """Records at the public surfaces: state listeners, frames, the event bus, the settings."""
+
     def __init__(self, world):
         self.w = world
         self.events = []
         self.last_snap = None
+        self.told = {}                    # user index -> last status the server told, before the init record
 
     def t(self):
         return int(round((self.w.loop.time() - self.w.t0) * 1e6))
@@ -121,9 +126,9 @@ class Recorder:
         w = self.w
         users = []
         for o in range(1, w.nusers + 1):
-            uo = w.user_objs[o]
-            users.append([STATUS_NAME.get(uo.status.value, 'unknown'), w.names[o] in w.settings.users.friends,
-                          bool(uo.privileged)])
+            # public view; the object is a throw-away one unless the client keeps the user tracked
+            users.append([w.names[o] in w.settings.users.friends,
+                          bool(w.client.users.get_user_object(w.names[o]).privileged)])
         return dict(slots=int(w.settings.transfers.limits.upload_slots), users=users)
 
     def maybe_attr(self):
@@ -136,16 +141,25 @@ class Recorder:
 
     def add(self, ev, **kw):
         if ev != 'init':
+            if self.last_snap is None:
+                return
             self.maybe_attr()
         else:
             self.last_snap = self.snap()
+            kw['told'] = [self.told.get(o, 'unknown') for o in range(1, self.w.nusers + 1)]
         self.events.append(dict(ev=ev, t=self.t(), **copy.deepcopy(self.last_snap), **kw))
+
+    def status_told(self, o, s):
+        if self.last_snap is None:
+            self.told[o] = s
+        else:
+            self.add('told', o=o, s=s)
 
 
 class World:
     """Everything of one scenario."""
 
-    def __init__(self, loop, share_dir, tmpdir, nusers, slots0, rng):
+    def __init__(self, loop, share_dir, tmpdir, nusers, slots0, rng, users=()):
         self.loop = loop
         self.share_dir = share_dir
         self.tmpdir = tmpdir
@@ -165,6 +179,23 @@ class World:
         self.bg = []
         self.keep = []                # strong refs for event-bus listeners
         self.link_owner = {}          # link id -> user index, for links dialled by a scripted peer
+        # the server's view of the users: status (None: no such user), privilege; whom the client has it watch
+        self.truth = {o: None for o in self.names}
+        self.priv_truth = {o: False for o in self.names}
+        self.init_friends = set()
+        for (o, st, f, p) in users:
+            self.truth[o] = None if st == 'unknown' else st
+            self.priv_truth[o] = bool(p)
+            if f:
+                self.init_friends.add(o)
+        self.watched = set()          # names
+        # a server never answers within the same loop iteration (the client registers its waiter after the send)
+        self.reply_delay = rng.choice([0.005, 0.02])
+        # work handed to the executor (stat, open, read of shared files) takes no time at all in the virtual loop;
+        # in some scenarios it takes longer than one sleep of the management job
+        self.exec_delay = rng.choice([0.0, 0.0, 0.0, 0.06])
+        self.refuse = {}              # o -> delay: connections to this peer fail (after the delay)
+        self.slow_dial = {}           # o -> delay: the next connection to this peer takes that long
 
     # -- set up -------------------------------------------------------------
     async def start(self):
@@ -173,11 +204,39 @@ class World:
         self.M = M
         self.net = SimNet(self.loop).install()
         self.net.on_link = self._on_link
+        self.net.policy = self._policy
         self.srv = await ScriptedServer(self.net).start()
+        self.srv.handlers[M.AddUser.Request] = self._srv_add_user
+        self.srv.handlers[M.RemoveUser.Request] = self._srv_remove_user
+        self.srv.handlers[M.ConnectToPeer.Request] = self._srv_connect_to_peer
         self.settings = make_settings('me', port=CLIENT_PORT, download_dir=self.tmpdir,
                                       shared=[dict(path=self.share_dir, share_mode='everyone')])
         self.settings.transfers.limits.upload_slots = self.slots0
+        for o in self.init_friends:
+            self.settings.users.friends.add(self.names[o])
         self.client = make_client(self.settings)
+        # listeners first: what the server says during the log-on (friends are watched from then on) counts
+        def on_added(event):
+            tr = event.transfer
+            u = self.upload_of.get((tr.username, tr.remote_path))
+            if u is not None and tr.is_upload():
+                self.transfers[u] = tr
+                tr.state_listeners.append(_Listener(self, u))
+
+        def on_message(event):
+            msg = event.message
+            if isinstance(msg, M.AddUser.Response):
+                o = self.index_of.get(msg.username)
+                if o is not None and msg.exists and msg.status in STATUS_NAME:
+                    self.rec.status_told(o, STATUS_NAME[msg.status])
+            elif isinstance(msg, M.GetUserStatus.Response):
+                o = self.index_of.get(msg.username)
+                if o is not None and msg.status in STATUS_NAME:
+                    self.rec.status_told(o, STATUS_NAME[msg.status])
+            self.rec.maybe_attr()
+        self.keep += [on_added, on_message]
+        self.client.events.register(TransferAddedEvent, on_added)
+        self.client.events.register(MessageReceivedEvent, on_message)
         await self.client.start()
         await self.client.login()
         await self.client.shares.scan()
@@ -188,8 +247,10 @@ class World:
         for o in range(1, self.nusers + 1):
             for k in range(PER_USER):
                 self.upload_of[(self.names[o], self.paths[k])] = (o - 1) * PER_USER + k + 1
-        # an application may keep User objects; doing so keeps what the server said about them
-        self.user_objs = {o: self.client.users.get_user_object(self.names[o]) for o in self.names}
+        # NO reference to a User object is kept: the user store of the client is weak, what the server said about
+        # a user lives exactly as long as the client keeps the user tracked
+        if any(self.priv_truth.values()):
+            self._server_send(M.PrivilegedUsers.Response(sorted(self.names[o] for o in self.names if self.priv_truth[o])))
         self.peers = {}
         for o in self.names:
             p = ScriptedPeer(self.net, self.names[o], 40000 + o)
@@ -198,22 +259,25 @@ class World:
             self.srv.addresses[self.names[o]] = (f'10.0.0.{o}', 40000 + o, 0)
             self.peers[o] = p
 
-        def on_added(event):
-            tr = event.transfer
-            u = self.upload_of.get((tr.username, tr.remote_path))
-            if u is not None and tr.is_upload():
-                self.transfers[u] = tr
-                tr.state_listeners.append(_Listener(self, u))
-
-        def on_message(event):
-            self.rec.maybe_attr()
-        self.keep += [on_added, on_message]
-        self.client.events.register(TransferAddedEvent, on_added)
-        self.client.events.register(MessageReceivedEvent, on_message)
         await vloop.settle(self.loop)
         await asyncio.sleep(0.3)          # let the start-up cycle and its sleep pass
         await vloop.settle(self.loop)
+        if self.exec_delay:
+            self.loop.executor_gate = self._slow_executor
         self.t0 = self.loop.time()
+
+    def _slow_executor(self, func, args):
+        fut = self.loop.create_future()
+
+        def finish():
+            if fut.done():
+                return
+            try:
+                fut.set_result(func(*args))
+            except BaseException as exc:  # noqa
+                fut.set_exception(exc)
+        self.loop.call_later(self.exec_delay, finish)
+        return fut
 
     async def stop(self):
         for t in self.bg + self.api_tasks:
@@ -222,6 +286,69 @@ class World:
             await self.client.stop()
         finally:
             self.net.uninstall()
+
+    # -- the scripted server's side of user tracking and of indirect connections ---------------
+    def _srv_add_user(self, srv, sess, msg):
+        M = self.M
+        o = self.index_of.get(msg.username)
+        if o is None:                                   # the client itself
+            return [M.AddUser.Response(msg.username, True, status=2, user_stats=self._stats(), country_code='BE')]
+        if self.truth[o] is None:
+            resp = M.AddUser.Response(msg.username, False)
+        else:
+            self.watched.add(msg.username)
+            resp = M.AddUser.Response(msg.username, True, status=STATUS_CODE[self.truth[o]],
+                                      user_stats=self._stats(), country_code='BE')
+        if self.reply_delay:
+            self.loop.call_later(self.reply_delay, self._late_reply, sess, msg.username, o)
+            return None
+        return [resp]
+
+    def _late_reply(self, sess, name, o):
+        M = self.M
+        if sess.closed:
+            return
+        if self.truth[o] is None or name not in self.watched:
+            if self.truth[o] is None:
+                sess.send(M.AddUser.Response(name, False))
+            return
+        sess.send(M.AddUser.Response(name, True, status=STATUS_CODE[self.truth[o]], user_stats=self._stats(),
+                                     country_code='BE'))
+
+    def _stats(self):
+        from aioslsk.protocol.primitives import UserStats
+        return UserStats(1000, 2, 30, 4)
+
+    def _srv_remove_user(self, srv, sess, msg):
+        self.watched.discard(msg.username)
+        o = self.index_of.get(msg.username)
+        if o is not None:
+            self.rec.add('forget', o=o)
+        return None
+
+    def _srv_connect_to_peer(self, srv, sess, msg):
+        o = self.index_of.get(msg.username)
+        if o is not None and o in self.refuse:
+            return [self.M.CannotConnect.Response(msg.ticket)]
+        return None
+
+    def _policy(self, host, port):
+        o = port - 40000 if 40000 < port <= 40000 + MAX_USERS else None
+        if o is None:
+            return 'ok'
+        if o in self.refuse:
+            d = self.refuse[o]
+            if not d:
+                return 'refuse'
+            fut = self.loop.create_future()
+            self.loop.call_later(d, lambda: fut.done() or fut.set_result('refuse'))
+            return ('gate', fut)
+        if o in self.slow_dial:
+            d = self.slow_dial.pop(o)
+            fut = self.loop.create_future()
+            self.loop.call_later(d, lambda: fut.done() or fut.set_result('ok'))
+            return ('gate', fut)
+        return 'ok'
 
     # -- observation of frames leaving the uploader ----------------------------
     def _on_link(self, link):
@@ -340,38 +467,82 @@ class World:
         ep = await self.p_endpoint(owner(u))
         ep.send_message(self.M.PeerTransferQueue.Request(self.paths[file_index(u)]))
 
-    def _api(self, coro):
+    def _api(self, coro, leaving=None):
+        """Call the public API in a task of its own.  For abort / pause the call and its return are recorded: in
+        between the upload is on its way out."""
+        if leaving is not None:
+            self.rec.add('call', u=leaving)
+
         async def run():
             try:
                 await coro
             except Exception as exc:      # InvalidStateTransition etc.: the stimulus did not apply
                 return exc
+            finally:
+                if leaving is not None:
+                    self.rec.add('ret', u=leaving)
         self.api_tasks.append(asyncio.create_task(run(), name='sim-api'))
 
-    async def op_life(self, kind, u):
+    def task_in_flight(self, u, other_than_current=False):
+        """Is a task that runs upload u (Transfer._transfer_task, the slot manage_transfers fills) still going?"""
+        tr = self.transfers.get(u)
+        task = getattr(tr, '_transfer_task', None) if tr is not None else None
+        if task is None or task.done():
+            return False
+        if other_than_current:
+            try:
+                return task is not asyncio.current_task()
+            except RuntimeError:
+                return True
+        return True
+
+    async def op_tailend(self, u):
+        """Wait (bounded) until the task that is still busy with a finished attempt of upload u has ended."""
+        tr = self.transfers.get(u)
+        for _ in range(30):
+            if tr is None or tr.state.VALUE.name in ('INITIALIZING', 'UPLOADING') or not self.task_in_flight(u):
+                return
+            await asyncio.sleep(0.05)
+
+    async def op_life(self, kind, u, delay=None):
         tr = self.transfers.get(u)
         M = self.M
         if tr is None:
             return
         state = tr.state.VALUE.name
         if kind == 'resume':
-            self._api(self.client.transfers.queue(tr))
+            # TransferManager.queue is for paused / aborted uploads (UploadSlots!Resume); on an upload that is being
+            # initialised it would pull the state from under the running task
+            if state in ('PAUSED', 'ABORTED'):
+                self._api(self.client.transfers.queue(tr))
         elif kind == 'abort':
-            self._api(self.client.transfers.abort(tr))
+            self._api(self.client.transfers.abort(tr), leaving=u)
         elif kind == 'pause':
-            self._api(self.client.transfers.pause(tr))
-        elif kind in ('neg', 'back'):
+            self._api(self.client.transfers.pause(tr), leaving=u)
+        elif kind in ('neg', 'back', 'nofile'):
             if state != 'INITIALIZING' or u not in self.tickets:
                 return
+            if kind == 'back' and self.rng.random() < 0.4:
+                kind = 'nofile'                  # concretisation: another way back to the queue
             self.neg_mode[u] = 'up' if kind == 'neg' else 'back'
+            if kind == 'nofile':
+                # the peer accepts, but no file connection can be made to it (direct refused, indirect: CannotConnect)
+                self.refuse[owner(u)] = delay if delay is not None else self.rng.choice([0.0, 0.3])
             ep = await self.p_endpoint(owner(u))
             ep.send_message(M.PeerTransferReply.Request(ticket=self.tickets[u], allowed=True))
-        elif kind == 'fail':
+        elif kind in ('fail', 'failslow'):
             if state == 'INITIALIZING' and u in self.tickets:
                 ep = await self.p_endpoint(owner(u))
                 ep.send_message(M.PeerTransferReply.Request(ticket=self.tickets[u], allowed=False,
                                                             reason='Cancelled'))
             elif state == 'UPLOADING' and u in self.f_conn:
+                if kind == 'failslow' or self.rng.random() < 0.4:
+                    # the peer is gone altogether: its message connection too, and reaching it again takes a while -
+                    # the uploader's task stays busy telling it PeerUploadFailed
+                    ep = self.p_conn.pop(owner(u), None)
+                    if ep is not None:
+                        ep.close()
+                    self.slow_dial[owner(u)] = delay if delay is not None else 1.0
                 w = self.f_conn[u]['link'].writers[0]
                 w.fail_writes = ConnectionResetError(104, 'Connection reset by peer')
                 w.resume()
@@ -398,29 +569,20 @@ class World:
         sess.send(*msgs)
 
     def op_status(self, o, s):
+        """The user's status changes on the server; the client is told only if it has the user watched."""
         M = self.M
         name = self.names[o]
-        if self.rng.random() < 0.5:
-            from aioslsk.protocol.primitives import UserStats
-            self._server_send(M.AddUser.Response(name, True, status=STATUS_CODE[s],
-                                                 user_stats=UserStats(1000, 2, 30, 4), country_code='BE'))
-        else:
-            self._server_send(M.GetUserStatus.Response(name, STATUS_CODE[s], bool(self.user_objs[o].privileged)))
+        self.truth[o] = s
+        if name in self.watched:
+            self._server_send(M.GetUserStatus.Response(name, STATUS_CODE[s], self.priv_truth[o]))
 
     def op_priv(self, o):
         M = self.M
         name = self.names[o]
-        uo = self.user_objs[o]
-        new = not uo.privileged
-        known = uo.status.value in (0, 1, 2)
-        if known and self.rng.random() < 0.5:
-            self._server_send(M.GetUserStatus.Response(name, uo.status.value, new))
-        elif new and self.rng.random() < 0.5:
-            self._server_send(M.AddPrivilegedUser.Response(name))
-        else:
-            cur = {self.names[x] for x in self.names if self.user_objs[x].privileged}
-            cur = (cur | {name}) if new else (cur - {name})
-            self._server_send(M.PrivilegedUsers.Response(sorted(cur)))
+        self.priv_truth[o] = not self.priv_truth[o]
+        self._server_send(M.PrivilegedUsers.Response(sorted(self.names[x] for x in self.names if self.priv_truth[x])))
+        if name in self.watched and self.truth[o] is not None and self.rng.random() < 0.3:
+            self._server_send(M.GetUserStatus.Response(name, STATUS_CODE[self.truth[o]], self.priv_truth[o]))
 
 
 class _Listener:
@@ -429,13 +591,19 @@ class _Listener:
 
     async def on_transfer_state_changed(self, transfer, old, new):
         w = self.w
-        w.rec.add('st', u=self.u, old=old.name, new=new.name)
+        if old.name == 'INITIALIZING':
+            w.refuse.pop(owner(self.u), None)         # the fault lasted for this attempt
+        w.rec.add('st', u=self.u, old=old.name, new=new.name,
+                  busy=w.task_in_flight(self.u, other_than_current=True))
+
+
+LIFE_OPS = ('req', 'resume', 'neg', 'complete', 'fail', 'failslow', 'back', 'nofile', 'abort', 'pause', 'tailend')
 
 
 def _subject(op):
     """What an operation touches; two operations on the same subject are not injected together."""
     k = op[0]
-    if k in ('req', 'resume', 'neg', 'complete', 'fail', 'back', 'abort', 'pause'):
+    if k in LIFE_OPS:
         return ('u', op[1]), ('o', owner(op[1]))
     if k in ('status', 'friend', 'priv'):
         return (('o', op[1]),)
@@ -464,10 +632,14 @@ class Scenario:
             raise MachineryFailure(f'virtual loop deadlock in scenario {ops}: {exc}')
         events = holder['events']
         def relevant(c):
-            # only what the upload scheduling itself raised is C05's observation
-            t = c.get('task') or c.get('future')
-            name = t.get_name() if hasattr(t, 'get_name') else ''
-            return name.startswith(('initialize-upload', 'transfer-management-task'))
+            # only what the transfer manager itself raised is C05's observation (module of the anchor code)
+            tb = getattr(c.get('exception'), '__traceback__', None)
+            while tb is not None:
+                fn = tb.tb_frame.f_code.co_filename.replace(os.sep, '/')
+                if fn.endswith('aioslsk/transfer/manager.py'):
+                    return True
+                tb = tb.tb_next
+            return False
         unh = [c for c in loop.unhandled if 'exception' in c and not isinstance(c.get('exception'), asyncio.CancelledError)]
         bad = [c for c in unh if relevant(c)]
         self.other_exceptions += len(unh) - len(bad)
@@ -480,22 +652,14 @@ class Scenario:
     async def _main(self, loop, init, ops, conc, holder):
         rng = random.Random(conc)
         slots0, users = init
-        nusers = max([len(users)] + [owner(op[1]) for op in ops if op and op[0] in
-                                     ('req', 'resume', 'neg', 'complete', 'fail', 'back', 'abort', 'pause')] +
+        nusers = max([len(users)] + [owner(op[1]) for op in ops if op and op[0] in LIFE_OPS] +
                      [op[1] for op in ops if op and op[0] in ('status', 'friend', 'priv')])
         if nusers > MAX_USERS:
             raise MachineryFailure('scenario uses more users than Trace.cfg allows')
-        w = World(loop, self.share_dir, self.tmpdir, nusers, slots0, rng)
+        # the initial statuses are the SERVER's; the client learns them when (and while) it watches a user
+        w = World(loop, self.share_dir, self.tmpdir, nusers, slots0, rng, users)
         await w.start()
         try:
-            # initial attributes, through the same handlers as later changes
-            for (o, s, f, p) in users:
-                if f:
-                    w.settings.users.friends.add(w.names[o])
-                if s != 'unknown':
-                    w._server_send(w.M.GetUserStatus.Response(w.names[o], STATUS_CODE[s], p))
-                elif p:
-                    w._server_send(w.M.AddPrivilegedUser.Response(w.names[o]))
             await vloop.settle(loop)
             await asyncio.sleep(0.3)
             await vloop.settle(loop)
@@ -536,11 +700,11 @@ class Scenario:
                     if not same_batch:
                         await self._settle(w)
                 continue
-            if k == 'idle':
+            if k in ('idle', 'wait'):
                 await self._settle(w)
                 group.clear()
                 need_tick = False
-                await asyncio.sleep(IDLE)
+                await asyncio.sleep(IDLE if k == 'idle' else (op[1] if len(op) > 1 else 0.4))
                 await self._settle(w)
                 continue
             subj = _subject(op)
@@ -550,8 +714,10 @@ class Scenario:
             group.update(subj)
             if k == 'req':
                 await w.op_req(op[1])
-            elif k in ('resume', 'neg', 'complete', 'fail', 'back', 'abort', 'pause'):
-                await w.op_life(k, op[1])
+            elif k == 'tailend':
+                await w.op_tailend(op[1])
+            elif k in LIFE_OPS:
+                await w.op_life(k, op[1], op[2] if len(op) > 2 else None)
             elif k == 'slots':
                 w.op_slots(op[1])
             elif k == 'status':
@@ -611,15 +777,17 @@ def directed_scenarios(rng, thorough):
         for u in ups:
             ops += (('neg', u), ('run',), ('complete', u)) + STEP
         out.append(((s, _plain(n)), ops, 'd3-limit-change'))
-    # D4 offline users: queued while offline, a slot is free; later they come back
+    # D4 offline users: they queue up while the limit is 0 (the client starts watching them and is told their
+    # status), then slots appear; later they come back
     for s in ('away', 'online'):
         for first_off in (True, False):
             users = ((1, 'offline' if first_off else 'online', False, False), (2, 'online', False, False))
             ops = (('req', 1), ('req', 3)) + STEP
             if not first_off:
-                ops = (('req', 1), ('req', 3), ('status', 1, 'offline')) + STEP
-            ops += (('neg', 3), ('run',), ('complete', 3)) + STEP + (('status', 1, s),) + STEP + (('back', 1),) + STEP
-            out.append(((2, users), ops, 'd4-offline'))
+                ops += (('status', 1, 'offline'),) + STEP
+            ops += (('slots', 2), ('wait', 1.2), ('neg', 3), ('run',), ('complete', 3)) + STEP + \
+                   (('status', 1, s),) + STEP + (('back', 1),) + STEP
+            out.append(((0, users), ops, 'd4-offline'))
     # D5 abort / pause / resume around the hand-out
     for k in ('abort', 'pause'):
         for s in (1, 2):
@@ -647,6 +815,35 @@ def directed_scenarios(rng, thorough):
                     for u in ups:
                         ops += b(u)
                 out.append(((s, _plain(n)), ops, 'd6-life-cycles'))
+    # D7 the file connection cannot be made (peer accepted the request, direct connect refused, indirect: CannotConnect)
+    # while the management job is idle, and nothing else happens afterwards
+    for n in (1, 2):
+        for delay in (0.0, 0.3):
+            for lim in (1, 2):
+                ops = tuple(('req', 2 * o - 1) for o in range(1, n + 1)) + STEP + (('wait', 0.4), ('nofile', 1, delay), ('idle',)) + \
+                      (('neg', 1), ('run',), ('complete', 1)) + STEP
+                out.append(((lim, _plain(n)), ops, 'd7-no-file-connection'))
+    # D8 an upload fails while uploading and the peer is hard to reach (the old task stays busy telling it so);
+    # the peer asks again before that task has ended; nothing else happens afterwards
+    for n in (1, 2):
+        for delay in (0.5, 1.0):
+            for gap in (0.1, 0.3):
+                ops = tuple(('req', 2 * o - 1) for o in range(1, n + 1)) + STEP + \
+                      (('neg', 1), ('run',), ('wait', 0.4), ('failslow', 1, delay), ('wait', gap), ('req', 1), ('idle',)) + \
+                      (('neg', 1), ('run',), ('complete', 1)) + STEP
+                out.append(((n, _plain(n)), ops, 'd8-asked-again-while-old-task-busy'))
+    # D9 what the client knows about a user must survive as long as the user has an unfinished upload: user 1 has a
+    # queued upload, then user 2 queues one, then a later upload of user 1 is finished (aborted / failed); user 3
+    # holds the only slot meanwhile.  Afterwards the slot is handed on twice.
+    for st1, st2 in (('offline', 'online'), ('online', 'unknown'), ('away', 'unknown'), ('offline', 'unknown')):
+        for second in (2, 4):
+            # user 1's later upload is aborted while queued; `second`: user 2 has one or two uploads in between
+            users = ((1, st1, False, False), (2, st2, False, False), (3, 'online', False, False))
+            ops = (('req', 5),) + STEP + (('req', 1), ('run',), ('req', 3), ('run',)) + \
+                  ((('req', 4), ('run',)) if second == 4 else ()) + (('req', 2),) + STEP + (('abort', 2),) + STEP
+            ops += (('wait', 0.4), ('fail', 5)) + STEP + (('neg', 3), ('neg', 1), ('run',), ('complete', 3), ('complete', 1)) + STEP + \
+                   (('neg', 3), ('neg', 1), ('neg', 4), ('run',), ('complete', 3), ('complete', 1), ('complete', 4)) + STEP
+            out.append(((1, users), ops, 'd9-knowledge-kept'))
     return out
 
 
@@ -660,8 +857,13 @@ def _fingerprint(tid, info, trace):
     if info.get('kind') == 'property':
         name = re.sub(r'[TBC]$', '', name) if name not in ('OnePerUser',) else name
         if name == 'EventuallyStarted':
-            c = re.findall(r'"cause": "([^"]+)"', info.get('detail') or '')
-            return f"C05:EventuallyStarted:not-started-within-bound-after-{c[-1] if c else 'unknown'}"
+            # the site: how the upload that is not started got where it is, if a task of its own was in the way;
+            # otherwise the kind of event that began the stall
+            det = info.get('detail') or ''
+            c = re.findall(r'"cause": "([^"]+)"', det)
+            k = re.findall(r'"culprit": "([^"]+)"', det)
+            what = k[-1] if k and 'task-in-flight' in k[-1] else (c[-1] if c else 'unknown')
+            return f"C05:EventuallyStarted:not-started-within-bound-after-{what}"
         return f'C05:{name}'
     if ev.get('ev') == 'st':
         return f"C05:unexplained-transition:{ev.get('old')}->{ev.get('new')}"
@@ -678,24 +880,30 @@ ALL_ACTIONS = ['Cycle', 'TimerStep', 'FirstStep', 'ERequest', 'ERequeue', 'EResu
 
 def _models(chk: Check, thorough: bool):
     st = chk.cov['binding_selftest']
-    r = tlc.model_check(SPEC, 'MC_quick.cfg', expect_actions=ALL_ACTIONS + ['ESetSlots'], timeout=900)
-    chk.add_model('UploadSlots 2 users/3 uploads, limit changes (exhaustive)', r)
-    r = tlc.model_check(SPEC, 'MC_prio.cfg', expect_actions=['Cycle', 'TimerStep', 'FirstStep', 'ERequest', 'EStatus',
-                                                             'EFriend', 'EPriv'], timeout=900)
-    chk.add_model('UploadSlots 2 users, all attributes (exhaustive)', r)
-    r = tlc.model_check(SPEC, 'MC_live.cfg', expect_actions=['Cycle', 'FirstStep', 'ESetSlots', 'EStatus'], timeout=900)
-    chk.add_model('UploadSlots liveness, limit change notifies (repaired position)', r)
-    # the code's position: the raised limit is not applied -> EventuallyStarted fails, ending with ESetSlots
+    r = tlc.model_check(SPEC, 'MC_quick.cfg', expect_actions=ALL_ACTIONS + ['TailEnd', 'ETracked'], timeout=900)
+    chk.add_model('UploadSlots 2 users/3 uploads, 3 life-cycle events (exhaustive)', r)
+    r = tlc.model_check(SPEC, 'MC_quick2.cfg', expect_actions=ALL_ACTIONS + ['TailEnd', 'ETracked', 'ESetSlots'], timeout=900)
+    chk.add_model('UploadSlots 2 users/2 uploads, limit changes, unbounded life cycles (exhaustive)', r)
+    r = tlc.model_check(SPEC, 'MC_prio.cfg', expect_actions=['Cycle', 'TimerStep', 'FirstStep', 'ERequest', 'ETracked',
+                                                             'ESetSlots'], timeout=900)
+    chk.add_model('UploadSlots 2 users, all server statuses / friend / privilege (exhaustive)', r)
+    r = tlc.model_check(SPEC, 'MC_live.cfg', expect_actions=['Cycle', 'FirstStep', 'EFail', 'ERequeue', 'TailEnd'], timeout=900)
+    chk.add_model('UploadSlots liveness, end of a task requests a cycle (repaired position)', r)
+    # the code's position (HEAD 77cb0ff): an upload asked for again while its old task is in flight is skipped by the
+    # cycle and nothing follows when the task ends -> EventuallyStarted fails, the counterexample contains TailEnd
     rc = tlc.run_tlc(SPEC, 'MC_live_code.cfg', timeout=300)
     labels = [lab for i in rc.issues for lab, _ in i.trace]
-    hit = any(i.kind == 'temporal' for i in rc.issues) and any(l.startswith('ESetSlots') for l in labels)
-    st['model_in_code_position_violates_EventuallyStarted_after_ESetSlots'] = hit
+    hit = any(i.kind == 'temporal' for i in rc.issues) and any(l.startswith('TailEnd') for l in labels)
+    st['model_in_code_position_violates_EventuallyStarted_after_TailEnd'] = hit
     if not hit:
-        raise MachineryFailure('design model in the code position did not show the raised-limit stall')
-    teeth = [('MC_teeth_grantall.cfg', {'StartRespectsLimit'}), ('MC_teeth_offline.cfg', {'NeverOffline'})]
+        raise MachineryFailure('design model in the code position did not show the task-in-flight stall')
+    teeth = []
     if thorough:
-        teeth += [('MC_teeth_users.cfg', {'OnePerUser'}), ('MC_teeth_countinit.cfg', {'OnePerUser', 'StartRespectsLimit'}),
-                  ('MC_teeth_weights.cfg', {'PriorityHolds'}), ('MC_live_lost.cfg', {'Temporal'})]
+        teeth = [('MC_teeth_grantall.cfg', {'StartRespectsLimit'}), ('MC_teeth_offline.cfg', {'NeverOffline'}),
+                 ('MC_teeth_users.cfg', {'OnePerUser'}), ('MC_teeth_countinit.cfg', {'OnePerUser', 'StartRespectsLimit'}),
+                 ('MC_teeth_weights.cfg', {'PriorityHolds'}), ('MC_teeth_track.cfg', {'KnowledgeKept', 'NeverOffline'}),
+                 ('MC_live_lost.cfg', {'Temporal'}), ('MC_live_slots.cfg', {'Temporal'}),
+                 ('MC_live_requeuetail.cfg', {'Temporal'})]
     for cfg, want in teeth:
         rt = tlc.run_tlc(SPEC, cfg, timeout=300)
         got = {i.name for i in rt.issues}
@@ -703,15 +911,20 @@ def _models(chk: Check, thorough: bool):
         if not got & want:
             raise MachineryFailure(f'{cfg}: the broken variant of the model violated {got}, expected {want}')
     if thorough:
-        r = tlc.model_check(SPEC, 'MC_quick_notify.cfg', timeout=2400)
-        chk.add_model('UploadSlots 2 users/3 uploads, limit change notifies (exhaustive)', r)
         # the big ones run without -coverage (vacuity is established by the small configurations above)
-        r = tlc.run_tlc(SPEC, 'MC_big.cfg', timeout=2400)
-        chk.add_model('UploadSlots 3 users/4 uploads (exhaustive)', r)
-        r = tlc.run_tlc(SPEC, 'MC_prio_big.cfg', timeout=2400)
-        chk.add_model('UploadSlots 2 users/3 uploads, all attributes (exhaustive)', r)
-        r = tlc.run_tlc(SPEC, 'MC_live_big.cfg', timeout=2400)
-        chk.add_model('UploadSlots liveness 2 users/3 uploads', r)
+        for cfg, label in THOROUGH_MODELS:
+            r = tlc.run_tlc(SPEC, cfg, timeout=2400)
+            chk.add_model(label, r)
+
+
+THOROUGH_MODELS = [
+    ('MC_quick3.cfg', 'UploadSlots 2 users/3 uploads, limit changes, unbounded life cycles (exhaustive)'),
+    ('MC_prio_attr.cfg', 'UploadSlots 2 users, all attributes, one change (exhaustive)'),
+    ('MC_big.cfg', 'UploadSlots 3 users/4 uploads (exhaustive)'),
+    ('MC_prio_big.cfg', 'UploadSlots 2 users/3 uploads, all attributes (exhaustive)'),
+    ('MC_live2.cfg', 'UploadSlots liveness 2 users, limit and attribute change'),
+    ('MC_live_big.cfg', 'UploadSlots liveness 2 users/3 uploads'),
+]
 
 
 _SIM_STATE = re.compile(r'\\\* <(.*?)(?: line \d+[^>]*)?>\nSTATE_\d+ == ?\n(.*?)\n\n', re.S)
@@ -743,7 +956,7 @@ def _simulate(cfg, num, depth, seed, timeout=900):
         shutil.rmtree(d, ignore_errors=True)
 
 
-_DEEP = ('ENegotiated', 'EComplete', 'EFail', 'EBackToQueue', 'ERequeue', 'ESetSlots', 'EStatus')
+_DEEP = ('ENegotiated', 'EComplete', 'EFail', 'EBackToQueue', 'ERequeue', 'ESetSlots', 'EStatus', 'TailEnd', 'ETracked')
 
 
 def _score(labels):
@@ -803,7 +1016,7 @@ def _edge_counts(traces):
             if e['ev'] == 'st':
                 k = f"{e['old']}->{e['new']}"
                 c[k] = c.get(k, 0) + 1
-            elif e['ev'] in ('req', 'attr'):
+            elif e['ev'] in ('req', 'attr', 'told', 'forget'):
                 c[e['ev']] = c.get(e['ev'], 0) + 1
     return c
 
@@ -827,11 +1040,21 @@ def _corruptions(traces, limit=6):
         for e in bad:
             e['slots'] = 0
         out.append(('limit-0', bad))
-        # (2) the owner was offline all along: NeverOffline
-        bad = copy.deepcopy(tr)
-        for e in bad:
-            e['users'][owner(u) - 1][0] = 'offline'
+        # (2) the server said the owner is offline, and never anything else: NeverOffline
+        bad = [copy.deepcopy(e) for e in tr if not (e['ev'] in ('told', 'forget') and e['o'] == owner(u))]
+        told = dict(bad[0], ev='told', o=owner(u), s='offline')
+        told.pop('told', None)
+        bad.insert(1, told)
+        i2 = next(j for j, e in enumerate(bad) if e['ev'] == 'st' and e['u'] == u and e['new'] == 'INITIALIZING')
         out.append(('owner-offline', bad))
+        # (2b) ... and the client had the server stop watching the owner while the upload was queued: no excuse
+        bad2 = copy.deepcopy(bad)
+        fg = dict(bad2[i2 - 1], ev='forget', o=owner(u))
+        for k2 in ('u', 'old', 'new', 'busy', 's'):
+            fg.pop(k2, None)
+        if bad2[i2 - 1]['ev'] == 'st' and bad2[i2 - 1]['u'] == u:
+            bad2.insert(i2, fg)
+            out.append(('forgotten-while-queued', bad2))
         # (3) the start is reported as QUEUED -> UPLOADING: no action of the spec
         bad = copy.deepcopy(tr)
         bad[i]['new'] = 'UPLOADING'
@@ -848,12 +1071,13 @@ def _corruptions(traces, limit=6):
         if not any(e['ev'] == 'st' and e['u'] == other for e in tr):
             out.append(('two-of-one-user', bad))
         # (5) the start never happened and nothing else did for longer than the bound: bounded EventuallyStarted
-        if not any(e['ev'] == 'attr' for e in tr[:i]) and tr[i]['slots'] > 0:
+        if not any(e['ev'] in ('attr', 'told', 'forget') for e in tr[:i]) and tr[i]['slots'] > 0:
             bad = copy.deepcopy(tr[:i])
             bad.append(dict(bad[-1], ev='end', t=bad[-1]['t'] + int((BOUND + 1) * 1e6)))
-            for k2 in ('u', 'old', 'new'):
+            for k2 in ('u', 'old', 'new', 'busy', 'o', 's', 'told'):
                 bad[-1].pop(k2, None)
-            out.append(('never-started', bad))
+            if len(bad) > 1 and not any(e['ev'] in ('call', 'ret') for e in bad):
+                out.append(('never-started', bad))
     # keep a few of every kind
     res, per = [], {}
     for k, t in out:
@@ -866,9 +1090,11 @@ def _corruptions(traces, limit=6):
 def run(chk: Check, args):
     thorough = chk.tier == 'thorough'
     chk.cov['rule'] = ('scenario = (initial limit and user attributes, operation sequence) projected from TLC behaviours '
-                       '(simulation of four configurations of the design spec) or enumerated (priority matrix, limits x '
-                       'populations, limit changes, offline, abort/pause); each is executed once per concretisation seed '
-                       '(user names, message variants AddUser/GetUserStatus/AddPrivilegedUser/PrivilegedUsers, idle periods) '
+                       '(simulation of several configurations of the design spec) or enumerated (priority matrix, limits x '
+                       'populations, limit changes, offline, abort/pause, life cycles, file connection failures, re-requests '
+                       'while the old task is busy, interleaved finished/unfinished uploads of one user); each is executed '
+                       'once per concretisation seed (user names, server reply delay, ways back to the queue, slow/fast '
+                       'failure tails, same-iteration wake-ups) '
                        'on a real SoulSeekClient in virtual time; distinct = distinct recorded traces; non-trivial = at '
                        'least one upload was started (entered INITIALIZING)')
     _models(chk, thorough)
@@ -924,7 +1150,10 @@ def run(chk: Check, args):
         'offline in that window neither',
         'the bounded-time form of "eventually started" uses 2 s of virtual time (8 x MAX_TRANSFER_MGMT_INTERVAL)',
         'state listeners do not suspend; the transfer lock of a QUEUED upload is therefore free when its task starts',
-        'the application keeps the User objects (UserManager stores users weakly), so what the server said stays known',
+        'a user\'s status is what the server told the client (AddUser / GetUserStatus responses seen on the event bus); it '
+        'counts as forgotten only when the client has the server stop watching the user (RemoveUser) while the user has no '
+        'unfinished upload; the scripted server answers AddUser with its status, reports changes only for watched users',
+        'privileges are announced with PrivilegedUsers lists (what AddPrivilegedUser sets on a User object is lost with it)',
         'share removal / blocking (a QUEUED upload failing as not shared) is outside this check (C08)',
         'CPython asyncio ready queue is FIFO; timers that are due are appended behind the handles already ready',
     ]
